@@ -109,3 +109,21 @@ def register(claim):
         'decided: masses/inertias recomputed by MuJoCo; orientation attributes other than quat.',
         'guard-completeness predicate normalisation + def-use provenance + AVN law + path rules',
         'DESIGN.md §3 C13')
+
+  claim('C06', 'other',
+        'Static equivalence by algebraic value numbering with scenario substitution: the contact '
+        'consumers of all three pipelines (spring resolve, positional resolve_position / '
+        'resolve_velocity, generalized jac_contact) and the limit consumers (spring _one/_two/'
+        '_three_dof, positional pad_x_dof + _three_dof_joint_update, generalized jac_limit) are '
+        'abstractly interpreted as whole kernels on symbolic states; with every contact distance > 0 '
+        'resp. every coordinate strictly inside its range the result is identical (as a normal '
+        'form) to the path taken by a model without contact pairs / without limits, including the '
+        'quaternion renormalisation.  Push-only: the normal impulse / PBD correction is '
+        'lambda*(-frame[0]) on link 1 and its negative on link 2 with lambda gated positive; the '
+        'generalized solver projects onto x >= 0.',
+        'Trusted: python ast, AVN normal form with gate-preserving widening, scenario substitution, '
+        'opaque contracts for contact.get / joint-frame helpers / point_jacobian / _imp_aref.  Not '
+        'decided: resting height, sink depth, rebound ratio (numeric histories); inertness of the '
+        'positional rotational limit inside its range (geometric identity).',
+        'whole-kernel algebraic value numbering + scenario substitution of gate atoms',
+        'DESIGN.md §3 C06')
